@@ -453,6 +453,7 @@ def run(ctx):
     dunder_sub.blocked_to_dense(ctx)
     blocks.block_bookkeeping(ctx)
     blocks.packing_offsets(ctx)
+    blocks.generalized(ctx)
 
 
 def combinator_shapes(ctx):
